@@ -7,6 +7,7 @@ import Driver.Savable
 import Driver.Futures
 import Driver.Launcher
 import Driver.PortsOut
+import Driver.Persister
 
 /-- `pmodel <component>`: line-protocol driver over the executable model definitions. -/
 def main (args : List String) : IO UInt32 := do
@@ -20,4 +21,5 @@ def main (args : List String) : IO UInt32 := do
   | ["futures"] => DrvFutures.main; return 0
   | ["launcher"] => DrvLauncher.main; return 0
   | ["portsout"] => DrvPortsOut.main; return 0
-  | _ => IO.eprintln "usage: pmodel <expose|fault|futures|launcher|outline|pm|ports|portsout|savable>"; return 2
+  | ["persister"] => DrvPersister.main; return 0
+  | _ => IO.eprintln "usage: pmodel <expose|fault|futures|launcher|outline|persister|pm|ports|portsout|savable>"; return 2
